@@ -52,6 +52,8 @@ func c12Values(n int, thorough bool) []string {
 	for _, e := range ext {
 		vals = append(vals, strconv.FormatInt(e, 10))
 	}
+	// legal spellings with leading zeros (decimal, never octal)
+	vals = append(vals, "010", "08", "-09", "00", "-0")
 	return vals
 }
 
@@ -75,13 +77,16 @@ func c12Steps(n int, thorough bool) []string {
 	for _, e := range []int64{1 << 31, -(1 << 31), 1 << 62, -(1 << 62), math.MaxInt64, math.MinInt64} {
 		add(strconv.FormatInt(e, 10))
 	}
+	add("010")
+	add("08")
+	add("-09")
+	add("00")
+	add("-0")
 	if thorough {
 		for k := 4; k <= n+2; k++ {
 			add(strconv.Itoa(k))
 			add(strconv.Itoa(-k))
 		}
-		add("-0")
-		add("00")
 		add("-9223372036854775807")
 	}
 	return out
